@@ -203,7 +203,9 @@ def run_case(case, rec):
         flavours = [('sync', 'view'), ('async', 'view'), ('sync', 'view-ctxname'), ('sync', 'view-merged'), ('sync', 'view-static'), ('async', 'view-class')]
     else:
         # 'coroutine-wrapped': a plain function that returns a coroutine (a coroutine function behind an ordinary decorator)
-        flavours = [('sync', 'function'), ('async', 'function'), ('async', 'coroutine'), ('sync', 'function-merged'), ('async', 'coroutine-wrapped')]
+        # 'partial': registered as functools.partial(fn); 'decorator-object': an instance of a class based decorator (__call__(*args, **kwargs) + update_wrapper)
+        flavours = [('sync', 'function'), ('async', 'function'), ('async', 'coroutine'), ('sync', 'function-merged'), ('async', 'coroutine-wrapped'),
+                    ('sync', 'partial'), ('sync', 'decorator-object')]
     obs = []
     for disp, flavour in flavours:
         log = []
@@ -237,6 +239,23 @@ def run_case(case, rec):
                 @functools.wraps(co_fn)
                 def fn(*a, **kw):
                     return co_fn(*a, **kw)
+            if flavour == 'partial':
+                import functools
+                fn = functools.partial(fn)
+            elif flavour == 'decorator-object':
+                import functools
+                inner = fn
+
+                class Counted:
+                    def __init__(self, f):
+                        functools.update_wrapper(self, f)
+                        self.f = f
+                        self.calls = 0
+
+                    def __call__(self, *args, **kwargs):
+                        self.calls += 1
+                        return self.f(*args, **kwargs)
+                fn = Counted(inner)
             if mode == 'none':
                 target.add(fn, name='f')
             elif mode == 'name':
